@@ -218,9 +218,22 @@ func H_C08_SendLoop(v *verifrt.T) {
 	v.Reach("sender-finished")
 }
 
-type vSendLogger struct{ sent []string }
+type vHashSendable struct {
+	vSendable
+	hash string
+}
 
-func (l *vSendLogger) Sent(f sts.Sent)                                 { l.sent = append(l.sent, f.GetName()) }
+func (f *vHashSendable) GetHash() string { return f.hash }
+
+type vSendLogger struct {
+	sent   []string
+	hashes []string
+}
+
+func (l *vSendLogger) Sent(f sts.Sent) {
+	l.sent = append(l.sent, f.GetName())
+	l.hashes = append(l.hashes, f.GetHash())
+}
 func (l *vSendLogger) WasSent(string, string, time.Time, time.Time) bool { return false }
 
 // O4: the real startTrack goroutine: a file is written to the sent log and
@@ -238,7 +251,20 @@ func H_C08_Track(v *verifrt.T) {
 		chValidate:    make(chan sts.Pollable, 4),
 	}
 	acked := int64(0)
+	// the file may be replaced by a new version (other hash) while it is being
+	// sent: parts acknowledged for the old version must not count for the new
+	switchAt := -1
+	if v.Param("VERSIONS", 2) == 2 {
+		switchAt = v.Choose("new-version-from-payload", np+1) - 1
+	}
+	hash := "h-old"
+	ackedOld := int64(0)
 	for i := 0; i < np; i++ {
+		if i == switchAt {
+			hash = "h-new"
+			ackedOld = acked
+			acked = 0
+		}
 		bin := payload.NewBin(1<<50, nil, nil)
 		off, ln := v.Int64("off"), v.Int64("len")
 		v.Assume(off >= 0)
@@ -246,7 +272,7 @@ func H_C08_Track(v *verifrt.T) {
 		v.Assume(off+ln <= size)
 		v.Assume(off < 1<<40)
 		v.Assume(ln < 1<<40)
-		bin.Add(&binnable{Sendable: &vSendable{name: "f", size: size, offset: off, length: ln}})
+		bin.Add(&binnable{Sendable: &vHashSendable{vSendable{name: "f", size: size, offset: off, length: ln}, hash}})
 		broker.chTransmitted <- bin
 		acked += ln
 	}
@@ -255,11 +281,30 @@ func H_C08_Track(v *verifrt.T) {
 	wg.Add(1)
 	go broker.startTrack(&wg)
 	v.Quiesce()
-	if acked >= size {
-		v.Assert(len(logger.sent) >= 1, "C08.O4 a fully acknowledged file is written to the sent log")
+	if switchAt < 0 {
+		ackedOld, acked = acked, 0
+	}
+	nOld, nNew := 0, 0
+	for _, h := range logger.hashes {
+		if h == "h-old" {
+			nOld++
+		} else {
+			nNew++
+		}
+	}
+	if ackedOld < size {
+		v.Assert(nOld == 0, "C08.O4 nothing is logged as sent before every byte of that version is acknowledged")
+	} else {
+		v.Assert(nOld >= 1, "C08.O4 a fully acknowledged file is written to the sent log")
+	}
+	if acked < size {
+		v.Assert(nNew == 0, "C08.O4 bytes acknowledged for an older version do not count for the new one")
+	} else {
+		v.Assert(nNew >= 1, "C08.O4 a fully acknowledged new version is written to the sent log")
+	}
+	if nOld+nNew > 0 {
 		v.Reach("logged")
 	} else {
-		v.Assert(len(logger.sent) == 0, "C08.O4 nothing is logged as sent before every byte is acknowledged")
 		v.Assert(len(broker.chValidate) == 0, "C08.O4 nothing is polled before every byte is acknowledged")
 		v.Reach("not-yet")
 	}
